@@ -1,15 +1,160 @@
 (* C30 - The I/O scheduler returns exactly the requested bytes and always completes.
-   Property theorems only. *)
+   Property theorems only.  Model: Io/Model_Sched.v (transcription of FileScheduler::submit_request,
+   ScanScheduler batches, IoQueueState, LanceEncodingsIo::submit_request); proofs: Io/Proofs_Sched.v. *)
 From LanceV Require Import Common.Base Io.Model_Sched Io.Proofs_Sched.
 Local Open Scope N_scope.
 
-(* F8 (DESIGN.md §6): the full statement "for every range list the response is one buffer per
-   range with the file's bytes" is false for the faithful model, as it is for the code. *)
-Theorem C30_request_shape_refuted :
-  exists f bs mx rs, in_file f rs = true /\ Known_C30_request_shape bs mx rs = true /\
-                     exact_result f rs (submit_request f bs mx rs) = false.
+(* ---- bytes ---------------------------------------------------------------------------- *)
+
+(* For EVERY file, block size, max iop size and range list inside the file: outside the class of
+   finding F8 the response is one buffer per requested range, in request order, each holding the
+   file's bytes for that range (no panic, no error). *)
+Theorem C30_bytes_exact : forall (f : bytes) (bs mx : N) (rs : list range),
+  in_file f rs = true -> Known_C30_request_shape bs mx rs = false ->
+  submit_request f bs mx rs = Ok (map (slice f) rs).
 Proof.
-  exists f16, 4, 100, [(5,5)]. destruct request_shape_refuted_empty as (H1 & H2 & H3).
-  rewrite H3. repeat split; assumption || reflexivity.
+  intros f bs mx rs Hf Hk. apply bytes_exact; [exact Hf|].
+  unfold Known_C30_request_shape in Hk. now apply negb_false_iff in Hk.
+Qed.
+Print Assumptions C30_bytes_exact.
+
+(* F8 (DESIGN.md §6): the unrestricted statement is false for the faithful model, as for the code:
+   an empty range yields no buffer, an unsorted list loses a buffer, an overlapping pair that is
+   split panics on usize underflow. *)
+Theorem C30_request_shape_refuted :
+  (exists f bs mx rs, in_file f rs = true /\ Known_C30_request_shape bs mx rs = true /\
+                      submit_request f bs mx rs = Ok []  /\ rs = [(5, 5)]) /\
+  (exists f bs mx rs, in_file f rs = true /\ Known_C30_request_shape bs mx rs = true /\
+                      length rs = 2%nat /\ exists b, submit_request f bs mx rs = Ok [b]) /\
+  (exists f bs mx rs, in_file f rs = true /\ Known_C30_request_shape bs mx rs = true /\
+                      submit_request f bs mx rs = Panic) /\
+  (exists f bs mx rs, in_file f rs = true /\ Known_C30_request_shape bs mx rs = true /\
+                      exact_result f rs (submit_request f bs mx rs) = false).
+Proof.
+  destruct request_shape_refuted_empty as (A1 & A2 & A3).
+  destruct request_shape_refuted_unsorted as (B1 & B2 & B3).
+  destruct request_shape_refuted_overlap_split as (C1 & C2 & C3).
+  split; [|split; [|split]].
+  - exists f16, 4, 100, [(5,5)]. repeat split; assumption.
+  - exists f16, 2, 100, [(10,12);(0,5)]. repeat split; try assumption. eexists; exact B3.
+  - exists f16, 0, 3, [(0,3);(0,4)]. repeat split; assumption.
+  - exists f16, 0, 3, [(0,3);(0,4)]. split; [exact C1 | split; [exact C2 | rewrite C3; reflexivity]].
 Qed.
 Print Assumptions C30_request_shape_refuted.
+
+(* The domain contains the condition stated in DESIGN.md: ranges sorted by start, non-empty, and
+   either pairwise disjoint (any splitting) or nothing split (any overlap / containment / adjacency). *)
+Theorem C30_bytes_exact_sorted_disjoint_or_unsplit : forall (f : bytes) (bs mx : N) (rs : list range),
+  in_file f rs = true -> Dom_C30_simple bs mx rs = true ->
+  Known_C30_request_shape bs mx rs = false /\ submit_request f bs mx rs = Ok (map (slice f) rs).
+Proof.
+  intros f bs mx rs Hf Hd. pose proof (Dom_simple_in_Dom bs mx rs Hd) as HD. split.
+  - unfold Known_C30_request_shape. now rewrite HD.
+  - apply bytes_exact; assumption.
+Qed.
+Print Assumptions C30_bytes_exact_sorted_disjoint_or_unsplit.
+
+(* Whatever reads the store fails ([fail] arbitrary), the request resolves to the exact bytes or to
+   an error - never to wrong bytes. *)
+Theorem C30_bytes_exact_or_error : forall (f : bytes) (fail : range -> bool) (bs mx : N) (rs : list range),
+  in_file f rs = true -> Known_C30_request_shape bs mx rs = false ->
+  submit_request_f f fail bs mx rs = Ok (map (slice f) rs) \/ submit_request_f f fail bs mx rs = Err.
+Proof.
+  intros f fail bs mx rs Hf Hk. apply bytes_exact_or_err; [exact Hf|].
+  unfold Known_C30_request_shape in Hk. now apply negb_false_iff in Hk.
+Qed.
+Print Assumptions C30_bytes_exact_or_error.
+
+(* LanceEncodingsIo: chunking by read_chunk_size and reassembly returns the exact bytes whenever
+   the chunked list handed to the FileScheduler is outside the class. *)
+Theorem C30_encodings_io_exact : forall (f : bytes) (bs mx chunk : N) (rs : list range) tagged,
+  in_file f rs = true -> chunk_all chunk 0 rs = Ok tagged ->
+  Known_C30_request_shape bs mx (map fst tagged) = false ->
+  encodings_io_submit f bs mx chunk rs = Ok (map (slice f) rs).
+Proof.
+  intros f bs mx chunk rs tagged Hf Hc Hk. eapply encodings_io_exact; [exact Hf | exact Hc |].
+  unfold Known_C30_request_shape in Hk. now apply negb_false_iff in Hk.
+Qed.
+Print Assumptions C30_encodings_io_exact.
+
+(* ---- queue ---------------------------------------------------------------------------- *)
+(* All queue theorems hold for EVERY heap tie-breaking [pick] satisfying [heap_spec], every
+   capacity > 0, every byte budget (also 0 or "negative"), every priority assignment and every
+   interleaving of submissions, deliveries, completions (any order), consumptions and close. *)
+
+(* In every reachable state: iops_avail + running = capacity, every task belongs to a live batch,
+   per batch num_reqs = pending + running + finished, and the in-flight priority multiset is exactly
+   the delivered tasks of the batches not yet consumed ([Open]); after close nothing is pending and
+   iops_avail + running = capacity + cancelled ([Closed]). *)
+Theorem C30_accounting : forall pick cap buf s,
+  heap_spec pick -> 0 < cap -> reachable pick cap buf s ->
+  (q_done (s_q s) = false -> Open cap s) /\ (q_done (s_q s) = true -> Closed cap s).
+Proof. exact accounting. Qed.
+Print Assumptions C30_accounting.
+
+(* No deadlock: while any submitted request has not been consumed, some internal transition
+   (deliver the head task / a running read completes / a completed batch is consumed) is enabled. *)
+Theorem C30_no_deadlock : forall pick cap buf s,
+  heap_spec pick -> 0 < cap -> reachable pick cap buf s ->
+  s_batches s <> [] -> exists e, internal e /\ enabled pick s e.
+Proof. exact no_deadlock. Qed.
+Print Assumptions C30_no_deadlock.
+
+(* Priority bypass: with an iop slot free, the head task is delivered whenever its priority is at
+   or below everything in flight - in particular when nothing is in flight - whatever bytes_avail is. *)
+Theorem C30_priority_bypass : forall pick (q : qstate) (t : task) rest,
+  pick (q_pending q) = Some (t, rest) -> 1 <= q_iops q -> t_prio t <= min_in_flight (q_inflight q) ->
+  exists q', next_task pick q = Some (t, q').
+Proof. exact priority_bypass. Qed.
+Print Assumptions C30_priority_bypass.
+
+(* Every request completes: from any reachable state, without new submissions, every run of
+   internal transitions is finite (bounded by [measure]) and can only stop when every batch has
+   been answered and consumed.  _partial: the transitions are those of the model; that tokio's
+   Notify actually wakes the I/O loop for each enabled transition is runtime behaviour, bounded
+   by the timeouts of the end-to-end arm only. *)
+Theorem C30_all_complete_partial : forall pick cap buf s,
+  heap_spec pick -> 0 < cap -> reachable pick cap buf s ->
+  (forall es s', Forall internal es -> run pick s es = Some s' -> (length es <= measure s)%nat) /\
+  (forall es s', Forall internal es -> run pick s es = Some s' ->
+     (forall e, internal e -> ~ enabled pick s' e) -> s_batches s' = []).
+Proof. exact all_complete. Qed.
+Print Assumptions C30_all_complete_partial.
+
+(* Dropping the scheduler: nothing stays pending; every task still pending is answered (counted as
+   finished) and its batch reports an error, so only already-running reads remain outstanding.
+   _partial: drop-time ordering against a concurrently running I/O loop is runtime behaviour. *)
+Theorem C30_close_cancels_partial : forall pick cap buf s s',
+  heap_spec pick -> 0 < cap -> reachable pick cap buf s ->
+  step pick s EvClose = Some s' ->
+  q_pending (s_q s') = [] /\
+  (forall b', In b' (s_batches s') ->
+     exists b, In b (s_batches s) /\ b_id b' = b_id b /\ b_fin b' = (b_fin b + pend_of (b_id b) s)%nat
+               /\ ((0 < pend_of (b_id b) s)%nat -> b_err b' = true)).
+Proof. exact close_cancels. Qed.
+Print Assumptions C30_close_cancels_partial.
+
+(* ---- non-vacuity ---------------------------------------------------------------------- *)
+(* the heap used by the correspondence satisfies heap_spec *)
+Example C30_heap_spec_inhabited : heap_spec pick_leftmost.
+Proof. exact heap_spec_leftmost. Qed.
+
+(* a coalesced, split, overlapping-where-unsplit request list inside the domain *)
+Example C30_domain_nonvacuous :
+  let f := N_seq 0 64 in
+  Known_C30_request_shape 10 7 [(10,30);(40,52);(60,61)] = false /\
+  updated_requests 10 7 [(10,30);(40,52);(60,61)]
+    = Ok [(10,16);(16,22);(22,28);(28,34);(34,40);(40,46);(46,52);(52,61)] /\
+  Known_C30_request_shape 4 100 [(0,10);(2,3);(5,20);(20,21)] = false /\
+  Dom_C30_simple 4 100 [(0,10);(2,3);(5,20);(20,21)] = true /\
+  (* inside Dom_C30 but outside the simple condition: overlap in an unsplit piece next to a split *)
+  Known_C30_request_shape 0 4 [(0,3);(1,2);(3,9)] = false /\ Dom_C30_simple 0 4 [(0,3);(1,2);(3,9)] = false /\
+  exact_result f [(0,3);(1,2);(3,9)] (submit_request f 0 4 [(0,3);(1,2);(3,9)]) = true.
+Proof. vm_compute. repeat split. Qed.
+
+(* a reachable queue state with a blocked head: budget 5, two 4-byte reads of different priority *)
+Example C30_queue_nonvacuous :
+  exists s, run pick_leftmost (sys_new 2 5) [EvSubmit 7 [4]; EvSubmit 9 [4]; EvDeliver] = Some s /\
+            step pick_leftmost s EvDeliver = None /\ s_batches s <> [] /\
+            step pick_leftmost s (EvComplete 0) <> None.
+Proof. eexists. split; [vm_compute; reflexivity|]. vm_compute. repeat split; discriminate. Qed.
